@@ -337,13 +337,13 @@ func cmdCheck(args []string) int {
 	// bounded stand-ins
 	var boundedReports []map[string]interface{}
 	violations := 0
-	var vioLines []string
+	var vioLines, boundedVio []string
 	for _, bs := range ps.Bounded {
 		rep, ok := runBounded(id, bs, *tier, outDir)
 		boundedReports = append(boundedReports, rep)
 		if !ok {
 			violations++
-			vioLines = append(vioLines, fmt.Sprintf("VIOLATION property=%s replay=%s", id, rep["replay"]))
+			boundedVio = append(boundedVio, fmt.Sprintf("VIOLATION property=%s replay=%s", id, rep["replay"]))
 		}
 	}
 
@@ -534,7 +534,7 @@ func cmdCheck(args []string) int {
 	for _, l := range knownLines {
 		fmt.Println(l)
 	}
-	for _, l := range vioLines {
+	for _, l := range append(vioLines, boundedVio...) {
 		fmt.Println(l)
 	}
 	fmt.Printf("%s %s: %d/%d claimed obligation groups discharged (%d obligations generated, %d unsat), %d undecided groups, %d bounded stand-ins, %.1fs\n",
